@@ -21,6 +21,12 @@
  *   newv / newm with a wrong-typed argument run as construct_with(alloc(T), args) (what new_with does) so that the harness
  *   holds the half-built object when the constructor raises; it is deleted at once (what the collector would do later).
  * Not applicable (bad-op) to containers of Box: Box_Assign takes any object.
+ * Aliased arguments: wherever a payload stands in push append pushat set rem mset mrem the token may be a REFERENCE to an object
+ * stored in a container — @d[i] = get(d, i), @d.kK = the stored key object with payload K (found by iterating over d), @d.vK =
+ * get(d, key K) — of the receiver itself (set(t, k, get(t, k)), rem(t, key_from_iteration), push(l, get(l, 0)), set(a, i, get(a, j)))
+ * or of another container; the stored object itself is passed.  bad-op: a reference to nothing, a container of Box on either
+ * side, an Array pushed an element of itself (KF-C04-push-own-element, C04's finding: read after realloc / memmove).
+ * Keys: Probe_Hash maps the payloads 1000..1175 to the boundary values of a 64-bit hash (BH[] below), all others to (pay % 16) * 37.
  * After the last line every remaining container is deleted (lowest name first), then `O end live=N` is printed.
  *
  * One `O` line per op (the Lean driver must print the same):
@@ -43,6 +49,8 @@
  *   own-crash             the child process died (ASan/UBSan/signal/timeout)
  *   own-list-pushat-leak  a refused List push_at left a constructed element behind (defect repaired by 4077d96)
  *   own-type-accepted     a call with a wrong-typed argument was not refused
+ *   (own-dead-contained / own-raw-element / own-unknown-token are also raised by the element type itself when an Assign / Cmp READS
+ *   its argument from a finalised element or from zero-filled memory: a container that finalises before it reads)
  * Known-finding signatures: own-box-assign-shallow (Box_Assign), own-box-ref-drops (Box_Ref: its own finding, KF-C05-box-ref-drops),
  * own-list-resize-raw, own-array-assign-partial, own-array-new-partial;
  * kf-c12-array-push-type (a finding recorded under C12: Array_Push / Push_At / Concat grow the array before the element's
@@ -147,17 +155,50 @@ static void core_del(struct Probe* p) {
   vpush(&ev_ret, p->pay);
 }
 
-static void Probe_Assign(var self, var obj) { core_assign(self, core_of(obj)->pay, self); }
+/* The object an Assign / Cmp READS (its argument): a fresh argument object of the harness (never constructed: token 0, marked
+   by ARG_MARK in the field of the owned pointer), or a live element.  Anything else is a read of memory that holds no
+   element: a finalised one (the container destructed it before it read it — e.g. the stored value passed back to set),
+   or zero-filled bytes (destructed and zeroed, or never constructed). */
+#define ARG_MARK ((int64_t*)(uintptr_t)0xA5A5A5A5A5A5A5A0ULL)
+static void check_read(struct Probe* s, const char* by) {
+  if (!oracle_on) return;
+  if (s->tok == 0) {
+    if (s->block != ARG_MARK) X("sig=own-raw-element line=%zu what=%s reads its argument from zero-filled memory: not an element (finalised and zeroed before it was read, or never constructed)", cur_line, by);
+    return;
+  }
+  if (s->tok > led_n || led[s->tok].state == T_NONE) { X("sig=own-unknown-token line=%zu what=%s reads an argument carrying token %llu that was never issued", cur_line, by, (unsigned long long)s->tok); return; }
+  if (led[s->tok].state == T_DEAD) X("sig=own-dead-contained line=%zu what=%s reads an element that has been finalised (token %llu, payload %lld): finalised while still in use", cur_line, by, (unsigned long long)s->tok, (long long)led[s->tok].pay);
+}
+static void Probe_Assign(var self, var obj) { struct Probe* src = core_of(obj); check_read(src, "assign"); core_assign(self, src->pay, self); }
 static void Probe_New(var self, var args) { Probe_Assign(self, get(args, $I(0))); }
 static void Probe_Del(var self) { core_del(self); }
 static int Probe_Cmp(var self, var obj) {
   struct Probe* a = self; struct Probe* b = core_of(obj);
+  check_read(b, "cmp");
   return (a->pay > b->pay) - (a->pay < b->pay);
 }
-static uint64_t Probe_Hash(var self) { struct Probe* a = self; return (uint64_t)(a->pay % 16) * 37u; }
+/* Boundary values of a 64-bit hash (Lean: Cello.Own.Conc.bhTable, same order).  The payloads BH_BASE + BH_PER*b + r (r < BH_PER)
+   hash to BH[b]: what Int_Hash gives for the keys -1, 0, 1, -2, INT64_MIN, INT64_MAX, INT64_MIN+1, 2^32, 2^32-1, 2^32+1, -2^32, 2^33,
+   what Float_Hash (the bit pattern) gives for the quiet NaNs of both signs, +inf, 1.0 (-0.0 = the pattern of INT64_MIN, the
+   all-ones NaN = the pattern of -1), and hashes that are 0 / nslots-1 / 1 modulo EVERY table size up to 1259 slots at once
+   (BH_L = 5*11*23*53*101*197*389*683*1259).  Every other payload hashes to (pay % 16) * 37: six-fold clusters. */
+#define BH_BASE 1000
+#define BH_PER 8
+#define BH_L 446221025714877545ULL
+static const uint64_t BH[] = {
+  0xFFFFFFFFFFFFFFFFULL, 0ULL, 1ULL, 0xFFFFFFFFFFFFFFFEULL, 0x8000000000000000ULL, 0x7FFFFFFFFFFFFFFFULL, 0x8000000000000001ULL,
+  0x0000000100000000ULL, 0x00000000FFFFFFFFULL, 0x0000000100000001ULL, 0xFFFFFFFF00000000ULL, 0x0000000200000000ULL,
+  0x7FF8000000000000ULL, 0xFFF8000000000000ULL, 0x7FF0000000000000ULL, 0x3FF0000000000000ULL,
+  BH_L, BH_L - 1, BH_L + 1, 41 * BH_L, 41 * BH_L - 1, 2 * BH_L - 1 };
+#define BH_N ((int64_t)(sizeof BH / sizeof BH[0]))
+static uint64_t Probe_Hash(var self) {
+  struct Probe* a = self;
+  if (a->pay >= BH_BASE && a->pay < BH_BASE + BH_PER * BH_N) return BH[(a->pay - BH_BASE) / BH_PER];
+  return (uint64_t)(a->pay % 16) * 37u;
+}
 
 static void Big_Assign(var self, var obj) {
-  struct Big* g = self; int64_t pay = core_of(obj)->pay;
+  struct Big* g = self; struct Probe* src = core_of(obj); check_read(src, "assign"); int64_t pay = src->pay;
   if (!big_guards_ok(g)) X("sig=own-corrupt line=%zu what=guard words of a large element (token %llu) are damaged before assignment", cur_line, (unsigned long long)g->c.tok);
   core_assign(&g->c, pay, self);
   g->id = g->c.pay; g->pad = PAD_MAGIC; g->tail = (int64_t)(TAIL_MAGIC ^ (int64_t)g->c.tok);
@@ -175,9 +216,9 @@ static uint64_t Big_Hash(var self) { return Probe_Hash(&((struct Big*)self)->c);
 typedef struct { char mem[sizeof(struct Header) + sizeof(struct Big)]; } ArgBuf;
 static var mk_arg_t(ArgBuf* b, int64_t pay, int big) {
   memset(b, 0, sizeof *b);
-  if (big) { struct Big* g = header_init((struct Header*)b->mem, Big, AllocStack); g->c.pay = pay; g->id = pay; return g; }
+  if (big) { struct Big* g = header_init((struct Header*)b->mem, Big, AllocStack); g->c.pay = pay; g->id = pay; g->c.block = ARG_MARK; return g; }
   struct Probe* p = header_init((struct Header*)b->mem, Probe, AllocStack);
-  p->pay = pay; return p;
+  p->pay = pay; p->block = ARG_MARK; return p;
 }
 static var mk_arg(ArgBuf* b, int64_t pay) { return mk_arg_t(b, pay, 0); }
 
@@ -425,9 +466,32 @@ static int parse_int(const char* s, int64_t* out, int allow_neg) {
 #define MAXTOK 300
 #define RN(e) ((e) ? v_exc_name(e) : "ok")
 
-/* argument token: a payload, or a wrong-typed object */
-typedef struct { int wrong; int64_t pay; } ArgTok;
+/* argument token: a payload, a wrong-typed object, or a REFERENCE to an object stored in a container:
+     @d[i]   get(d, i): the record / node at position i of the Array / List d (negative: from the end)
+     @d.kK   the stored key object with payload K of the Table / Tree d (found by iterating over d: what foreach yields)
+     @d.vK   get(d, key K): the stored value object
+   The stored object itself is passed to the call (a converted copy only where `cast` demands the exact type and the
+   referenced object has the other element type).  Allowed in push append pushat set rem mset mrem; the receiver must be a
+   container of probe elements; an Array is not pushed an element of itself (KF-C04-push-own-element: read after realloc /
+   memmove) — all of these are bad-op, in the Lean model too. */
+typedef struct { int wrong; int64_t pay; int isref; int rc; int sel; int64_t ix; var ptr; int tbig; } ArgTok;
+static int parse_ref(const char* s, ArgTok* a) {
+  const char* p = s; size_t nd = 0; int64_t c = 0;
+  while (*p >= '0' && *p <= '9') { c = c * 10 + (*p - '0'); p++; nd++; if (nd > 2) return 0; }
+  if (nd == 0) return 0;
+  a->rc = (int)c; a->isref = 1; a->wrong = 0; a->pay = 0; a->ptr = NULL; a->tbig = 0;
+  if (*p == '[') {
+    char buf[16]; const char* q = strchr(p, ']');
+    if (!q || q[1] || (size_t)(q - p - 1) >= sizeof buf) return 0;
+    memcpy(buf, p + 1, (size_t)(q - p - 1)); buf[q - p - 1] = 0;
+    a->sel = 'e'; return parse_int(buf, &a->ix, 1);
+  }
+  if (*p == '.' && (p[1] == 'k' || p[1] == 'v')) { a->sel = p[1]; return parse_int(p + 2, &a->ix, 0); }
+  return 0;
+}
 static int parse_arg(const char* s, ArgTok* a) {
+  a->isref = 0; a->ptr = NULL; a->rc = -1; a->sel = 0; a->ix = 0; a->tbig = 0;
+  if (s[0] == '@') return parse_ref(s + 1, a);
   if (s[0] == '!') { if (!s[1] || s[2] || !strchr("ISFTN", s[1])) return 0; a->wrong = s[1]; a->pay = 0; return 1; }
   a->wrong = 0; return parse_int(s, &a->pay, 0);
 }
@@ -463,6 +527,47 @@ static void drop_shadow(int c) { sh[c].kind = 0; ref_ok[c] = 0; sh[c].a.n = sh[c
 
 static var mk_pointee(int64_t pay) { ArgBuf ab; mk_heap = 1; var p = new(Probe, mk_arg(&ab, pay)); mk_heap = 0; return p; }
 
+/* ---- references to stored objects (aliased arguments) */
+static var ref_elem(var h, int64_t i) { return get(h, $I(i)); }
+static var ref_key(var h, int64_t k) { foreach (key in h) { if (core_of(key)->pay == k) return key; } return NULL; }
+static var ref_val(var h, int64_t k, int kbig) { ArgBuf kb; return get(h, mk_arg_t(&kb, k, kbig)); }
+/* Resolve a reference the way the caller of the library would (get / iteration) and — independently — in the payload-level
+   reference of the harness: a->pay comes from the shadow, a->ptr from the library.  0 = designates nothing (bad op). */
+static int bind_ref(var* H, ArgTok* a) {
+  if (!a->isref) return 1;
+  int d = a->rc; var exc = NULL;
+  if (d < 0 || d >= NC || !sh[d].kind) return 0;
+  if (a->sel == 'e') {
+    if (sh[d].kind != K_ARR && sh[d].kind != K_LST) return 0;
+    int64_t ln = (int64_t)sh[d].a.n, j = a->ix < 0 ? ln + a->ix : a->ix;
+    if (j < 0 || j >= ln || sh[d].a.v[j] < 0) return 0;
+    a->pay = sh[d].a.v[j]; a->tbig = sh[d].kt;
+    V_TRY(exc, a->ptr = ref_elem(H[d], a->ix));
+  } else {
+    if (!is_map(sh[d].kind)) return 0;
+    long j = mfind(&sh[d], a->ix);
+    if (j < 0) return 0;
+    if (a->sel == 'k') { a->pay = a->ix; a->tbig = sh[d].kt; V_TRY(exc, a->ptr = ref_key(H[d], a->ix)); }
+    else { a->pay = sh[d].b.v[j]; a->tbig = sh[d].vt; V_TRY(exc, a->ptr = ref_val(H[d], a->ix, sh[d].kt)); }
+  }
+  if (exc || !a->ptr) {
+    if (oracle_on) X("sig=own-contents line=%zu what=get / iteration does not deliver an element of container %d that the reference holds (%s)", cur_line, d, RN(exc));
+    return 0;
+  }
+  if (core_of(a->ptr)->pay != a->pay && oracle_on)
+    X("sig=own-contents line=%zu what=the stored object delivered by get / iteration on container %d has payload %lld, the reference has %lld", cur_line, d, (long long)core_of(a->ptr)->pay, (long long)a->pay);
+  return 1;
+}
+/* the argument object of a call: a fresh stack object, or the stored object itself (`exact`: cast() demands this very type —
+   a stored object of the other element type is passed as a converted copy) */
+static var arg_obj(ArgTok* a, ArgBuf* b, int want_big, int exact) {
+  if (!a->isref) return mk_arg_t(b, a->pay, want_big);
+  if (exact && a->tbig != want_big) return mk_arg_t(b, core_of(a->ptr)->pay, want_big);
+  return a->ptr;
+}
+/* an Array receiving an element of itself by push / push_at: KF-C04-push-own-element (not executed) */
+static int own_array_push(ArgTok* a, int64_t c) { return a->isref && a->rc == (int)c && sh[c].kind == K_ARR; }
+
 /* returns 0 = bad op */
 static int run_op(var* H, char** tk, int nt) {
   int64_t c, d, i, p, n, k, v; var exc = NULL; ArgBuf ab, ab2;
@@ -491,7 +596,7 @@ static int run_op(var* H, char** tk, int nt) {
     ArgTok* as = malloc((na + 1) * sizeof(ArgTok));
     int ngood = -1;                                    /* arguments before the first wrong-typed one (maps: whole pairs) */
     for (int j = 0; j < na; j++) {
-      if (!parse_arg(tk[3 + j], &as[j])) { free(as); return 0; }
+      if (!parse_arg(tk[3 + j], &as[j]) || as[j].isref) { free(as); return 0; }
       if (as[j].wrong && ngood < 0) ngood = m ? (j / 2) * 2 : j;
     }
     ArgBuf* abs = malloc((na + 1) * sizeof(ArgBuf));
@@ -541,7 +646,7 @@ static int run_op(var* H, char** tk, int nt) {
     ArgTok* as = malloc((na + 1) * sizeof(ArgTok));
     int ngood = -1;
     for (int j = 0; j < na; j++) {
-      if (!parse_arg(tk[2 + j], &as[j])) { free(as); return 0; }
+      if (!parse_arg(tk[2 + j], &as[j]) || as[j].isref) { free(as); return 0; }
       if (as[j].wrong && ngood < 0) ngood = j;
     }
     ArgBuf* abs = malloc((na + 1) * sizeof(ArgBuf));
@@ -578,6 +683,7 @@ static int run_op(var* H, char** tk, int nt) {
     ArgTok a1;
     if (nt != 3 || !NUM(1, c, 0) || !parse_arg(tk[2], &a1) || !used_name(c) || !is_seq(sh[c].kind)) return 0;
     int app = op[0] == 'a';
+    if (a1.isref && (is_boxseq(sh[c].kind) || own_array_push(&a1, c) || !bind_ref(H, &a1))) return 0;
     p = a1.pay;
     if (a1.wrong) {
       /* List_Push: List_Alloc, then the element's assign raises: nothing linked.  Array_Push: the array has grown (F15) */
@@ -593,7 +699,8 @@ static int run_op(var* H, char** tk, int nt) {
       if (app) V_TRY(exc, append(H[c], $(Box, pt))); else V_TRY(exc, push(H[c], $(Box, pt)));
       if (exc) del(pt);
     } else {
-      if (app) V_TRY(exc, append(H[c], mk_arg_t(&ab, p, sh[c].kt))); else V_TRY(exc, push(H[c], mk_arg_t(&ab, p, sh[c].kt)));
+      var ao = arg_obj(&a1, &ab, sh[c].kt, 0);
+      if (app) V_TRY(exc, append(H[c], ao)); else V_TRY(exc, push(H[c], ao));
     }
     if (!exc) vpush(&sh[c].a, p);
     check_and_print(H, RN(exc), (int)c, -1); return 1;
@@ -601,6 +708,7 @@ static int run_op(var* H, char** tk, int nt) {
   if (!strcmp(op, "pushat")) {
     ArgTok a1;
     if (nt != 4 || !NUM(1, c, 0) || !NUM(2, i, 1) || !parse_arg(tk[3], &a1) || !used_name(c) || !is_seq(sh[c].kind)) return 0;
+    if (a1.isref && (is_boxseq(sh[c].kind) || own_array_push(&a1, c) || !bind_ref(H, &a1))) return 0;
     p = a1.pay;
     size_t ln = sh[c].a.n; ctx_op = OP_PUSHAT; ctx_kind = sh[c].kind;
     if (a1.wrong) {
@@ -618,7 +726,7 @@ static int run_op(var* H, char** tk, int nt) {
       check_and_print(H, RN(exc), (int)c, -1); return 1;
     }
     if (is_boxseq(sh[c].kind)) { var pt = mk_pointee(p); V_TRY(exc, push_at(H[c], $(Box, pt), $I(i))); if (exc) del(pt); }
-    else V_TRY(exc, push_at(H[c], mk_arg_t(&ab, p, sh[c].kt), $I(i)));
+    else V_TRY(exc, push_at(H[c], arg_obj(&a1, &ab, sh[c].kt, 0), $I(i)));
     /* reference: Array normalises against len+1 (the end is a valid position); List: 0 = head, otherwise the
        position of an existing element (normalised against len) */
     int64_t j; int okpos;
@@ -646,6 +754,7 @@ static int run_op(var* H, char** tk, int nt) {
   if (!strcmp(op, "set")) {
     ArgTok a1;
     if (nt != 4 || !NUM(1, c, 0) || !NUM(2, i, 1) || !parse_arg(tk[3], &a1) || !used_name(c) || !is_seq(sh[c].kind)) return 0;
+    if (a1.isref && (is_boxseq(sh[c].kind) || !bind_ref(H, &a1))) return 0;
     p = a1.pay;
     if (a1.wrong) {
       /* bounds check, then assign onto the stored element: its Assign validates the argument before it touches itself */
@@ -656,7 +765,7 @@ static int run_op(var* H, char** tk, int nt) {
     }
     ctx_op = OP_SET; ctx_kind = sh[c].kind;
     if (is_boxseq(sh[c].kind)) { var pt = mk_pointee(p); V_TRY(exc, set(H[c], $I(i), $(Box, pt))); if (exc) del(pt); }
-    else V_TRY(exc, set(H[c], $I(i), mk_arg_t(&ab, p, !sh[c].kt)));   /* an argument of the other element type: the elements are convertible */
+    else V_TRY(exc, set(H[c], $I(i), arg_obj(&a1, &ab, !sh[c].kt, 0)));   /* a fresh argument has the other element type: the elements are convertible */
     ctx_raised = exc != NULL;
     int64_t ln = (int64_t)sh[c].a.n, j = i < 0 ? ln + i : i;
     if (j >= 0 && j < ln) sh[c].a.v[j] = p;
@@ -665,6 +774,7 @@ static int run_op(var* H, char** tk, int nt) {
   if (!strcmp(op, "rem")) {
     ArgTok a1;
     if (nt != 3 || !NUM(1, c, 0) || !parse_arg(tk[2], &a1) || !used_name(c) || (sh[c].kind != K_ARR && sh[c].kind != K_LST)) return 0;
+    if (a1.isref && !bind_ref(H, &a1)) return 0;
     p = a1.pay;
     if (a1.wrong) {
       /* eq(item, obj) on the first element raises (the element's Cmp casts its argument); an empty sequence has no such object */
@@ -672,7 +782,7 @@ static int run_op(var* H, char** tk, int nt) {
       must_refuse(exc, "rem");
       check_and_print(H, RN(exc), (int)c, -1); return 1;
     }
-    V_TRY(exc, rem(H[c], mk_arg_t(&ab, p, sh[c].kt)));
+    V_TRY(exc, rem(H[c], arg_obj(&a1, &ab, sh[c].kt, 0)));
     for (size_t j = 0; j < sh[c].a.n; j++) if (sh[c].a.v[j] == p || (p == 0 && sh[c].a.v[j] < 0)) { verase(&sh[c].a, j); break; }
     check_and_print(H, RN(exc), (int)c, -1); return 1;
   }
@@ -743,6 +853,7 @@ static int run_op(var* H, char** tk, int nt) {
   if (!strcmp(op, "mset")) {
     ArgTok ka, va;
     if (nt != 4 || !NUM(1, c, 0) || !parse_arg(tk[2], &ka) || !parse_arg(tk[3], &va) || !used_name(c) || !is_map(sh[c].kind)) return 0;
+    if ((ka.isref || va.isref) && (ka.wrong || va.wrong || !bind_ref(H, &ka) || !bind_ref(H, &va))) return 0;
     k = ka.pay; v = va.pay;
     if (ka.wrong || va.wrong) {
       /* Table_Set_Move / Tree_Set cast key and value before anything else: ValueError, nothing allocated, nothing assigned */
@@ -752,20 +863,25 @@ static int run_op(var* H, char** tk, int nt) {
       must_refuse(exc, "set");
       check_and_print(H, RN(exc), (int)c, -1); return 1;
     }
-    V_TRY(exc, set(H[c], mk_arg_t(&ab, k, sh[c].kt), mk_arg_t(&ab2, v, sh[c].vt)));
+    {
+      /* with stored objects as arguments: the key / value object itself (set(t, k, get(t, k)), set(t, key_from_iteration, ...)) */
+      var ko = arg_obj(&ka, &ab, sh[c].kt, 1); var vo = arg_obj(&va, &ab2, sh[c].vt, 1);
+      V_TRY(exc, set(H[c], ko, vo));
+    }
     mset_ref(&sh[c], k, v);
     check_and_print(H, RN(exc), (int)c, -1); return 1;
   }
   if (!strcmp(op, "mrem")) {
     ArgTok ka;
     if (nt != 3 || !NUM(1, c, 0) || !parse_arg(tk[2], &ka) || !used_name(c) || !is_map(sh[c].kind)) return 0;
+    if (ka.isref && !bind_ref(H, &ka)) return 0;
     k = ka.pay;
     if (ka.wrong) {
       V_TRY(exc, rem(H[c], wrong_obj(ka.wrong)));                /* the key is cast before the lookup */
       must_refuse(exc, "rem");
       check_and_print(H, RN(exc), (int)c, -1); return 1;
     }
-    V_TRY(exc, rem(H[c], mk_arg_t(&ab, k, sh[c].kt)));
+    V_TRY(exc, rem(H[c], arg_obj(&ka, &ab, sh[c].kt, 1)));
     long j = mfind(&sh[c], k);
     if (j >= 0) { verase(&sh[c].a, (size_t)j); verase(&sh[c].b, (size_t)j); }
     if ((exc != NULL) == (j >= 0) && oracle_on) X("sig=own-contents line=%zu what=rem outcome %s disagrees with the reference", cur_line, RN(exc));
@@ -799,7 +915,7 @@ static int run_op(var* H, char** tk, int nt) {
     } else if (K == K_TBL || K == K_TRE) {
       V_TRY(exc, {
         size_t ln = len(h);
-        foreach (key in h) { sum += core_of(key)->pay; sum += core_of(get(h, key))->pay; cnt++; }
+        foreach (key in h) { sum += core_of(key)->pay; sum += core_of(get(h, key))->pay; sum += mem(h, key); cnt++; }
         sum += mem(h, mk_arg_t(&ab, 17, sh[c].kt)); sum += (int64_t)(hash(h) & 1); sum += eq(h, h);
         if (sh[c].a.n) sum += core_of(get(h, mk_arg_t(&ab2, sh[c].a.v[0], sh[c].kt)))->pay;
         if (cnt != ln && oracle_on) X("sig=own-len line=%zu what=iteration yields %zu keys, len() is %zu", cur_line, cnt, ln);
